@@ -222,6 +222,49 @@ func runC13(p *core.Prog, r *core.Report) {
 						}
 					}
 				}
+				// the same clip written as a comparison: two ranges built on the two sides of `exclusiveEndBlock < U`
+				// (or an equivalent test) — NewRange(_, exclusiveEndBlock) only where the end lies below U (or at it),
+				// NewRange(_, U) only where it does not
+				if !okClip {
+					isEnd := func(v ssa.Value) bool { f, _ := core.LoadedField(core.SkipConv(v)); return f == end }
+					holder := c.Parent()
+					core.Instrs(holder, func(in ssa.Instruction) {
+						ifi, ok := in.(*ssa.If)
+						if !ok || okClip {
+							return
+						}
+						var u ssa.Value
+						onT, onF, ok := core.CondRelation(ifi.Cond, isEnd, func(v ssa.Value) bool {
+							if isEnd(v) {
+								return false
+							}
+							u = v
+							return true
+						})
+						if !ok || u == nil {
+							return
+						}
+						for idx, rel := range []int{onT, onF} {
+							e := core.Edge{From: ifi.Block(), Idx: idx}
+							_, only := core.OnlyViaEdge(holder, e, func(x ssa.Instruction) bool { return x == ssa.Instruction(c) })
+							if !only {
+								continue
+							}
+							endBelow := rel&core.OrdGT == 0 // end <= U on this edge
+							endAbove := rel&core.OrdLT == 0 // end >= U on this edge
+							if (isEnd(hi) && endBelow) || (sameExpr(hi, u, 4) && endAbove) {
+								okClip = true
+								if bo, ok := u.(*ssa.BinOp); ok && bo.Op == token.ADD {
+									if f, _ := core.LoadedField(bo.Y); f == interval {
+										floor = deparam(bo.X)
+									} else if f, _ := core.LoadedField(bo.X); f == interval {
+										floor = deparam(bo.Y)
+									}
+								}
+							}
+						}
+					})
+				}
 				if floor != nil {
 					switch base {
 					case "Segmenter.firstRange":
@@ -300,13 +343,34 @@ func runC13(p *core.Prog, r *core.Report) {
 			if !ok {
 				return
 			}
-			onT, _, ok := core.CondRelation(ifi.Cond, isIdx(fr), isCallOf(lastIdx))
-			if ok && onT == core.OrdGT {
-				tb := ifi.Block().Succs[0]
-				if ret, ok := tb.Instrs[len(tb.Instrs)-1].(*ssa.Return); ok {
-					if k, ok := ret.Results[0].(*ssa.Const); ok && k.IsNil() {
-						okAbove = true
+			onT, onF, ok := core.CondRelation(ifi.Cond, isIdx(fr), isCallOf(lastIdx))
+			if !ok {
+				return
+			}
+			// whichever way the test is written: on the edge where idx > LastIndex() no range is built and nil is returned
+			for idx, rel := range []int{onT, onF} {
+				if rel != core.OrdGT {
+					continue
+				}
+				sb := ifi.Block().Succs[idx]
+				q := core.PathQuery{Fn: fr}
+				builds := func(x ssa.Instruction) bool { return core.IsCallTo(p.FuncObj(pkgBlock, "NewRange"))(x) }
+				if builds(sb.Instrs[0]) {
+					continue
+				}
+				if _, reach := q.CanReach(sb.Instrs[0], builds); reach {
+					continue
+				}
+				nilRet := func(x ssa.Instruction) bool {
+					ret, ok := x.(*ssa.Return)
+					if !ok || len(ret.Results) != 1 {
+						return false
 					}
+					k, ok := core.ReturnValues(ret)[0].(*ssa.Const)
+					return ok && k.IsNil()
+				}
+				if _, reach := q.CanReach(sb.Instrs[0], nilRet); reach || nilRet(sb.Instrs[0]) {
+					okAbove = true
 				}
 			}
 		})
